@@ -145,6 +145,7 @@ type BuildCase struct {
 	X               *Extras           `json:"x,omitempty"`           // typed format-specific blocks
 	Constraints     bool              `json:"constraints,omitempty"` // decorate every second relation item with a version constraint in the target format's syntax
 	Signed          bool              `json:"signed,omitempty"`      // sign deb, rpm and apk with the harness' unprotected test keys
+	MTimeEpoch      bool              `json:"mtime_epoch,omitempty"` // package mtime is exactly 1970-01-01T00:00:00Z (MTime must be 0)
 	Formats         []string          `json:"formats,omitempty"`
 	RelSrc          bool              `json:"rel_src,omitempty"` // reference sources by relative path (needs cwd = root)
 }
@@ -320,7 +321,7 @@ func (c *BuildCase) ConfigMapFor(root, f string) map[string]any {
 		n := octal(c.Umask, true)
 		m["umask"] = &n
 	}
-	if c.MTime != 0 {
+	if c.MTime != 0 || c.MTimeEpoch {
 		m["mtime"] = ts(c.MTime)
 	}
 	if c.DisableGlobbing {
